@@ -44,19 +44,19 @@ theorem batchForget_tr (e : Env) (l : List (Ino × Nat)) (s : St) (sp : Spec) :
     exact (Tr.forget i n).trans' (ih _ _)
 
 theorem importRoot_tr (e : Env) (s : St) (sp : Spec) (root : HAns) :
-    Tr e false s sp (importRoot e s root).1 sp := by
+    Tr e true s sp (importRoot e s root).1 sp := by
   unfold importRoot
   have h1 := tables_allocFd e s
   split
-  · rename_i heq; rw [heq] at h1; exact Tr.of_tables h1
+  · rename_i heq; rw [heq] at h1; exact (Tr.of_tables h1).relax
   · rename_i s1 heq; rw [heq] at h1
     split
-    · exact Tr.of_tables (by rw [tables_freeFd]; exact h1)
+    · exact (Tr.of_tables (by rw [tables_freeFd]; exact h1)).relax
     · rename_i f
       have h2 := tables_toOpenable e s1 f.fh
       split
       · rename_i s2 er heq2; rw [heq2] at h2
-        exact Tr.of_tables (by rw [tables_freeFd, h2]; exact h1)
+        exact (Tr.of_tables (by rw [tables_freeFd, h2]; exact h1)).relax
       · rename_i s2 heq2; rw [heq2] at h2
         apply Tr.setRoot (d := { id := f.id, fh := f.fh, refs := 2, safe := f.safe })
         · rw [data_of_tables (tables_settlePath _ _), insertInode_data, data_of_tables h2, data_of_tables h1]
@@ -326,12 +326,13 @@ theorem opReaddirplus_tr (e : Env) (s : St) (sp : Spec) (ino : Ino) (h : Hnd) (d
       rw [heq2] at hr
       exact (t1.trans' hr).trans' (Tr.of_tables (tables_closeTemp _ _))
 
-/-- **every request moves the server state and the client ledger together** -/
-/-- does the request clear the tables? -/
+/-- does the request (re-)import the root / clear the tables? -/
 def Op.isDestroy : Op → Bool
   | .destroy _ => true
+  | .init _ => true
   | _ => false
 
+/-- **every request moves the server state and the client ledger together** -/
 theorem step_tr (e : Env) (s : St) (sp : Spec) (op : Op) :
     Tr e op.isDestroy s sp (step e s op).1 (sp.step op (step e s op).2) := by
   cases op with
